@@ -42,7 +42,16 @@ def check(repo, res, tier):
     res.analysed(f, len(paths))
     rt = f.params[1]
     # ---- the sample variable: what the returned index expression filters ----
-    rets = [n for n in walk_no_nested(f.node) if isinstance(n, ast.Return) and n.value is not None]
+    rets0 = [n for n in walk_no_nested(f.node) if isinstance(n, ast.Return) and n.value is not None]
+    # a value returned through a local that is set on several branches is judged branch by branch
+    rets = []
+    from ..paths import assigned_names as _an
+    for r in rets0:
+        defs = _an(f).get(r.value.id, []) if isinstance(r.value, ast.Name) else []
+        if len(defs) > 1 and all(isinstance(d_, ast.Assign) and len(d_.targets) == 1 for d_ in defs):
+            rets += defs
+        else:
+            rets.append(r)
     sample_names = set()
     for r in rets:
         P = canon.p(r.value, fr)
@@ -66,6 +75,16 @@ def check(repo, res, tier):
             filt = n
     if not sample_names:
         raise AnalysisError('no filtered sample in _create_random_value_from_runtime')
+    # a sample handed over through another local (samples = s) is drawn where that local is set
+    grew = True
+    while grew:
+        grew = False
+        for n in walk_no_nested(f.node):
+            if isinstance(n, ast.Assign) and len(n.targets) == 1 and isinstance(n.targets[0], ast.Name) \
+                    and n.targets[0].id in sample_names and isinstance(n.value, ast.Name) \
+                    and n.value.id not in sample_names:
+                sample_names.add(n.value.id)
+                grew = True
     # ---- Y1: every assignment of a sample ---------------------------------
     for n in walk_no_nested(f.node):
         if not (isinstance(n, ast.Assign) and len(n.targets) == 1 and isinstance(
@@ -73,6 +92,8 @@ def check(repo, res, tier):
             continue
         v = n.value
         if isinstance(v, ast.Constant) and v.value is None:
+            continue
+        if isinstance(v, ast.Name) and v.id in sample_names:
             continue
         draw = v if isinstance(v, ast.Call) and isinstance(v.func, ast.Attribute) else None
         label = short(ast.unparse(v), 90)
